@@ -366,7 +366,7 @@ impl<'tcx> Runner<'tcx> {
         if env != TypingEnv::fully_monomorphized() {
             // bodies are cached per instance; generic roots use their own environment
         }
-        let mut st = State { frames: vec![FrameSt::new(0)], atoms: Vec::new(), rng_count: 0, facts: Rc::new(Default::default()) };
+        let mut st = State { frames: vec![FrameSt::new(0)], atoms: Rc::new(Vec::new()), rng_count: 0, facts: Rc::new(Default::default()) };
         let Some(bi) = self.ip.body_of(inst) else {
             self.ip.cur_root = saved_root;
             self.ip.env = saved_env;
@@ -386,7 +386,37 @@ impl<'tcx> Runner<'tcx> {
             let v = self.input_for(&mut st, job, i, &pname, t, &module);
             args.push(v);
         }
-        let parts = self.ip.call_instance(st, inst, args);
+        let mut parts = self.ip.call_instance(st, inst, args);
+        // `then=<root>`: feed the Ok payload (or the plain result) of this root to a second root in the
+        // same state, so that named atoms flow through both (round-trip analyses)
+        if let Some(next) = job.opts.get("then") {
+            if let (Ok(ps), Some(ri2)) = (&parts, self.find_root(next)) {
+                let (inst2, _) = self.roots[ri2];
+                let mut out2: Vec<(State, Val)> = Vec::new();
+                for (s, v) in ps.iter() {
+                    let mut arg = match v {
+                        Val::Enum(e) => match e.variants.get(&0).and_then(|fs| fs.get(0)) {
+                            Some(x) => x.clone(),
+                            None => continue,
+                        },
+                        other => other.clone(),
+                    };
+                    if let Some(k) = job.opts.get("then.field").and_then(|s| s.parse::<usize>().ok()) {
+                        arg = match &arg {
+                            Val::Tuple(t) => match t.get(k) {
+                                Some(x) => x.clone(),
+                                None => continue,
+                            },
+                            _ => continue,
+                        };
+                    }
+                    if let Ok(r) = self.ip.call_instance(s.clone(), inst2, vec![arg]) {
+                        out2.extend(r);
+                    }
+                }
+                parts = Ok(out2);
+            }
+        }
         let mut rendered = Vec::new();
         let mut joined: Option<Val> = None;
         if let Ok(parts) = parts {
@@ -519,6 +549,12 @@ pub fn run<'tcx>(tcx: TyCtxt<'tcx>) -> String {
         rn.ip.taint_track = job.opts.contains_key("taint");
         rn.ip.moduli = Rc::new(job.opts.get("modulus").map(|s| s.split(',').filter_map(|x| x.parse::<i128>().ok()).collect()).unwrap_or_default());
         rn.ip.peel = job.opts.get("peel").map(|s| s.split('|').filter_map(|x| x.rsplit_once(':').and_then(|(f, n)| Some((f.to_string(), n.parse::<u32>().ok()?)))).collect()).unwrap_or_default();
+        let cap = job.opts.get("lin.cap").and_then(|s| s.parse::<usize>().ok());
+        LIN_CAP.with(|c| c.set(cap.unwrap_or(6)));
+        rn.ip.lin_tier = cap.is_some();
+        rn.ip.atomize = job.opts.get("atomize").map(|s| s.split('|').map(|x| x.to_string()).collect()).unwrap_or_default();
+        rn.ip.atomize_count.clear();
+        rn.ip.ident_pats = job.opts.get("identity").map(|s| s.split('|').map(|x| x.to_string()).collect()).unwrap_or_default();
         rn.ip.track_ret = job.opts.get("track_ret").map(|s| s.split('|').map(|x| x.to_string()).collect()).unwrap_or_default();
         rn.ip.probe_pats = job.opts.get("probe").map(|s| s.split('|').map(|x| x.to_string()).collect()).unwrap_or_default();
         let steps0 = rn.ip.steps;
